@@ -119,7 +119,9 @@ func (ex *Exec) callFunc(fr *Frame, st *State, fn *ssa.Function, bindings []Valu
 	c := ex.eng.contractFor(fn)
 	switch {
 	case c != nil && !c.Inline:
+		ex.callBindings, ex.callFn = bindings, fn
 		res = ex.applyContract(fr, st, c, paramNames(fn), sig, args, fmt.Sprintf("%s#%d", callee, ord), fname, in)
+		ex.callBindings, ex.callFn = nil, nil
 	case externModel(fn) != nil:
 		res = externModel(fn)(ex, st, fn, args)
 	case ex.eng.isRepoFunc(fn) && fn.Blocks != nil && fr.depth < maxInlineDepth && !ex.inStack(fr, fn) && ex.budget > 0:
@@ -276,7 +278,20 @@ func (ex *Exec) applyContract(fr *Frame, st *State, c *FuncContract, pnames []st
 		pos = in.Pos()
 	}
 	pre := st.clone()
-	env := &Env{ex: ex, vars: vars, st: pre, old: pre, pkg: pkg}
+	// captured variables of a closure called directly: its contract names them
+	var cells map[string]cellBinding
+	if ex.callFn != nil && len(ex.callBindings) == len(ex.callFn.FreeVars) {
+		cells = map[string]cellBinding{}
+		for i, fv := range ex.callFn.FreeVars {
+			b := ex.callBindings[i]
+			if _, isPtr := fv.Type().Underlying().(*types.Pointer); isPtr && len(b.C) == 1 && b.Loc == nil {
+				if _, shadow := vars[fv.Name()]; !shadow {
+					cells[fv.Name()] = cellBinding{ref: b.C[0], t: derefType(fv.Type())}
+				}
+			}
+		}
+	}
+	env := &Env{ex: ex, vars: vars, st: pre, old: pre, pkg: pkg, cells: cells}
 	for f := fr; f != nil; f = f.parent {
 		if f.entry != nil {
 			env.entryWm = f.entry.wm
@@ -349,7 +364,7 @@ func (ex *Exec) applyContract(fr *Frame, st *State, c *FuncContract, pnames []st
 			}
 		}
 	}
-	post := &Env{ex: ex, vars: vars, st: st, old: pre, pkg: pkg, results: results, resTup: sig.Results()}
+	post := &Env{ex: ex, vars: vars, st: st, old: pre, pkg: pkg, results: results, resTup: sig.Results(), cells: cells}
 	for _, e := range c.Ensures {
 		g, err := post.boolExpr(e.E, false)
 		if err != nil {
